@@ -466,6 +466,13 @@ def run_case(m):
 
     def ne_of(e):
         return 's' if e.data.ndim == 0 else str(len(e))
+    if op == 'index_at_bool':
+        def f():
+            r = obj.index_at(rep_build(m['q']), boolean=True)
+            if np.asarray(r).dtype != bool:
+                return 'dtype:%s' % np.asarray(r).dtype
+            return 'ok B:' + (','.join('1' if v else '0' for v in r) if len(r) else '-')
+        return Case('C03 index_at_bool uaxis %s %s' % (otok, rep_tok(m['q'])), call(f), 'uniform/index_at/boolean', meta=m, nontrivial=nt)
     if op in ('index_at', 'index_at_cur'):
         q = m['q']
         if kind == 'uaxis':
@@ -583,6 +590,12 @@ def expectation(m):
     def int_key():
         k = m['k']
         return None if not (-n <= k < n) else k % n
+    if op == 'index_at_bool':
+        q, sc = rep_actual(m['q'], unit)
+        st, idx = exp_uniform_index(ax, q, sc)
+        if idx is None:
+            return st, None
+        return 'ok B:' + ','.join('1' if any(times[i] <= t < times[i] + ax['dt'] for t in q) else '0' for i in range(n)), None
     if op == 'index_at':
         if kind == 'uaxis':
             q, sc = rep_actual(m['q'], unit)
@@ -647,6 +660,22 @@ def expectation(m):
     return None
 
 
+def sel_times(canon, times):
+    """the selected instants named by a canonical result string (positions, time object or events)"""
+    try:
+        if canon.startswith('ok P:'):
+            return [times[int(p)] for p in canon[5:].split(',')] if canon[5:] != '-' else []
+        if canon.startswith('ok T:'):
+            ps = canon.split(':')[3]
+        elif canon.startswith('ok EV:'):
+            ps = canon.split(':', 2)[2].split('|')[0]
+        else:
+            return None
+        return [] if ps == '-' else [int(p) for p in ps.split(',')]
+    except (ValueError, IndexError):
+        return None
+
+
 def check_case(c):
     m = c.meta
     if not m:
@@ -681,9 +710,13 @@ def check_case(c):
                         % (r[1], r[2], lo, hi))
     if uses_epoch and kind in ('tarray', 'events') and want.startswith('ok') and got.startswith('ok'):
         times = m['t']['ps']
-        if len(set(times)) < len(times) and len(got) < len(want):
+        gt, wt = sel_times(got, times), sel_times(want, times)
+        # signature of the recorded defect: a proper, non-empty prefix is returned and every dropped sample
+        # repeats the instant of the last one kept
+        if (gt is not None and wt is not None and 0 < len(gt) < len(wt) and wt[:len(gt)] == gt
+                and all(t == gt[-1] for t in wt[len(gt):])):
             return fail('duplicates-under-selected', 'sorted array with repeated instants: fewer samples selected than satisfy start <= t < stop')
-    if op in ('index_at', 'at', 'getitem') and kind in ('uaxis', 'series') and got == 'err ValueError' and want.startswith('ok'):
+    if op in ('index_at', 'index_at_bool', 'at', 'getitem') and kind in ('uaxis', 'series') and got == 'err ValueError' and want.startswith('ok'):
         ax = m['axis']
         q, _ = rep_actual(m['q'], ax['unit']) if 'q' in m and m.get('key', 'q') == 'q' else ([], True)
         last = ax['t0'] + (ax['n'] - 1) * ax['dt']
@@ -803,6 +836,8 @@ def cases(rng, tier, seed):
     for _ in range(260 * scale):                      # uniform axis
         ax = gen_axis(rng, nmax)
         add({'op': 'index_at', 'kind': 'uaxis', 'axis': ax, 'q': gen_uquery(rng, ax, array=rng.random() < 0.3)})
+        if rng.random() < 0.25:
+            add({'op': 'index_at_bool', 'kind': 'uaxis', 'axis': ax, 'q': gen_uquery(rng, ax, array=rng.random() < 0.6)})
         e = gen_uepoch(rng, ax)
         add({'op': 'slice_during', 'kind': 'uaxis', 'axis': ax, 'e': e})
         if rng.random() < 0.4:
